@@ -61,6 +61,7 @@ func cmdCheck(args []string) int {
 	keep := fs.Bool("keep", false, "keep scratch dir")
 	only := fs.String("only", "", "only functions whose key contains this")
 	verbose := fs.Bool("v", false, "verbose")
+	oblFilter := fs.String("obl", "", "debug: only solve obligations whose name contains this")
 	if len(args) < 1 {
 		return 2
 	}
@@ -115,13 +116,24 @@ func cmdCheck(args []string) int {
 	} else {
 		fmt.Println("scratch:", scratch)
 	}
-	timeout, need := 10, 1
+	timeout, need := 12, 1
 	if *tier == "thorough" {
 		timeout, need = 60, 2
 	}
-	workers := runtime.NumCPU() / 2
+	workers := runtime.NumCPU() / 3 // three solver processes per obligation
 	if workers < 2 {
 		workers = 2
+	}
+	if *oblFilter != "" {
+		for _, rep := range reps {
+			var keepO []*Obligation
+			for _, o := range rep.Obligations {
+				if strings.Contains(o.Name, *oblFilter) {
+					keepO = append(keepO, o)
+				}
+			}
+			rep.Obligations = keepO
+		}
 	}
 	tGen := time.Since(t0)
 	SolveAll(reps, scratch, timeout, seed, need, workers)
@@ -260,6 +272,9 @@ func report(id string, cfg *PropConfig, w *World, reps []*FuncReport, tier strin
 	var knownLines []string
 	var violationLines []string
 	seenKnown := map[string]bool{}
+	replays := 0
+	replayedBase := map[string]bool{}
+	replayStart := time.Now()
 	for _, o := range failed {
 		base := oblBase(o.Name)
 		matched := false
@@ -276,7 +291,14 @@ func report(id string, cfg *PropConfig, w *World, reps []*FuncReport, tier strin
 			continue
 		}
 		violations++
-		path := writeReplay(id, o, failedRep[o], verif, repo, cfg)
+		// replay budget: the first few failed obligations (at most one per obligation
+		// base name) are replayed on the real code, the rest only get their record.
+		doReplay := replays < 4 && !replayedBase[base] && time.Since(replayStart) < 150*time.Second
+		if doReplay {
+			replays++
+			replayedBase[base] = true
+		}
+		path := writeReplay(id, o, failedRep[o], verif, repo, cfg, doReplay)
 		violationLines = append(violationLines, path)
 	}
 	exit := 0
@@ -353,7 +375,7 @@ func round3(x float64) float64 { return float64(int(x*1000+0.5)) / 1000 }
 
 // writeReplay stores the failed obligation, the solver output / model, and (when a
 // driver exists) the result of replaying the model on the real code.
-func writeReplay(id string, o *Obligation, rep *FuncReport, verif, repo string, cfg *PropConfig) string {
+func writeReplay(id string, o *Obligation, rep *FuncReport, verif, repo string, cfg *PropConfig, doReplay bool) string {
 	dir := filepath.Join(verif, "replays", id)
 	os.MkdirAll(dir, 0o755)
 	name := sanitize(o.Name)
@@ -377,7 +399,10 @@ func writeReplay(id string, o *Obligation, rep *FuncReport, verif, repo string, 
 	if r.Model != "" {
 		rec["model"] = r.Model
 	}
-	if rep != nil {
+	if rep != nil && !doReplay {
+		rec["replay"] = "not attempted (replay budget: 4 obligations / 150 s per check; see the other replay files of this run)"
+	}
+	if rep != nil && doReplay {
 		ok, detail := replayOnRealCode(id, o, rep, nil, repo, verif, cfg)
 		if ok {
 			suffix = ""
